@@ -118,7 +118,7 @@ fn main() {
         for (k, v) in out.foreign {
             *foreign.entry(k).or_default() += v;
         }
-        samples.extend(out.samples.into_iter().take(4));
+        samples.extend(out.samples.into_iter().take(2));
         violations.extend(out.violations);
         health.extend(out.health_failures);
         rules.push(if nst > 1 { format!("[{}] {}", engine.name(), engine.rule()) } else { engine.rule() });
